@@ -51,7 +51,7 @@ PLAN = {
 EXTRA_CONC = {"C03": "absorb,buffers", "C10": "pending,readerr", "C19": "react"}
 
 PROPS_FILES = {
-    "C01": ["props/C01.v"], "C02": ["props/C02.v"], "C03": ["props/C03.v"], "C04": ["props/C04.v"], "C08": ["props/C08.v"],
+    "C01": ["props/C01.v"], "C02": ["props/C02.v"], "C03": ["props/Bridge2.v", "props/C03.v"], "C04": ["props/C04.v"], "C08": ["props/C08.v"],
     "C09": ["props/C09.v"], "C10": ["props/C10.v"], "C11": ["props/C11.v"], "C12": ["props/Bridge2.v", "props/C12.v"], "C19": ["props/C19.v"],
 }
 
